@@ -9,6 +9,7 @@ def A(name, bound, tier="quick", timeout=900):
 
 
 PROP = {
+    "level_text": 'HBox::pack equals a transcription of TeX.2021.649-667 for every list of up to 3 (thorough: 4) items of the stated kinds with every amount symbolic; nothing is claimed for longer lists or the item kinds listed as outside.',
     "title": "Packing a horizontal list produces TeX's box dimensions and glue setting",
     "explanation": (
         "HBox::pack is compared with a transcription of TeX.2021.649-667 that keeps one stretch and one shrink total per order "
